@@ -17,7 +17,8 @@ RULE = ("Cases: a traditional (3-10 windows), azimuthal (1-5 distinct azimuths w
         "from generated curve sets carrying the metadata process() attaches; a history of 0-5 peak-range updates, "
         "frequency_domain_window_rejection calls and manual rejections; then write_hvsr_object_to_file with drawn "
         "distribution_mc / distribution_fn and read_hvsr_object_from_file. Non-trivial = the written object had >= 1 rejected "
-        "window or a bounded search range; distinct by SHA-1 of the case.")
+        "window or a bounded search range; distinct by SHA-1 of the case."
+        ' Search limits include inf/1e20/1e300/0/-inf/1e-300.')
 ASSUMPTIONS = [
     "results with fewer than two accepted windows are outside the property (the writer legitimately refuses: std undefined)",
     "azimuths are ordinary decimals (>= 0.001 or 0, at most 4 decimals), the form the text format is designed for",
